@@ -137,7 +137,7 @@ def _close_figures():
 
 # --------------------------------------------------------------------------------------------- operand specs
 
-TM_ROUTES = ("list", "array", "col", "matrix", "copy", "ctor", "stm", "staa", "setitem", "product")
+TM_ROUTES = ("list", "array", "col", "matrix", "copy", "ctor", "stm", "staa", "setitem", "product", "matrix4dp")
 
 
 _TAA_SCALE = np.array([10.0, 10.0, 10.0, 1.8, 1.8, 1.8])      # |p| <= 17.4, rotation angle <= 3.118 < pi
@@ -184,6 +184,9 @@ def build_tm(spec):
         return L.tm(taa.reshape((6, 1)).copy())
     if r == "matrix":
         return L.tm(O.pose_from_taa(taa))
+    if r == "matrix4dp":
+        # a pose copied from a data sheet / log file: the 4x4 to four decimals (orthonormal to ~1e-4 only)
+        return L.tm(np.round(O.pose_from_taa(taa), 4))
     if r == "copy":
         return L.tm(taa.copy()).copy()
     if r == "ctor":
